@@ -23,3 +23,26 @@ fn k0_canary_must_fail() {
     let x: u8 = kani::any();
     assert!(x != 77, "canary");
 }
+
+// ---- C08 / C04: the alias-side copy of matrix application (Word::alias_apply_mods) obeys the same spec
+use crate::seg::verif_kani::{any_wf_segment, any_bin_nodes, any_bin_feats, expected, view7, wf_seg, POS};
+
+//% props=C08,C04 tier=quick kind=P timeout=1200 pair=Word::alias_apply_mods clause="deromaniser modifiers: same whole-view result as a rule matrix, bundle stays well formed, +/-major node and +place are errors"
+#[kani::proof]
+#[kani::unwind(28)]
+fn k8_alias_apply_mods() {
+    let o = any_wf_segment();
+    let mods = Modifiers { nodes: any_bin_nodes(), feats: any_bin_feats(), suprs: SupraSegs::new() };
+    let w = mk_word(Vec::new());
+    let mut s = o;
+    let r = w.alias_apply_mods(&mut s, &mods, AliasPosition { kind: crate::alias::AliasKind::Deromaniser, line: 0, start: 0, end: 1 });
+    let bad = mods.nodes[0].is_some() || mods.nodes[1].is_some() || mods.nodes[2].is_some() || mods.nodes[3] == POS;
+    assert!(r.is_err() == bad, "errors exactly for +/-root, manner, laryngeal and +place");
+    if r.is_ok() {
+        let exp = expected(&o, &mods.nodes, &mods.feats);
+        let got = view7(&s);
+        let mut k = 0;
+        while k < 7 { if !exp.contradictory[k] { assert!(got[k] == exp.view[k], "alias modifiers = matrix application"); } k += 1; }
+        assert!(wf_seg(&s), "bundle stays well formed (an emptied place is absent, no stray bits)");
+    }
+}
